@@ -10,6 +10,10 @@ checked by the other half of C03 (not in this file).
 """
 from ..runner import Stream
 from . import c09
+from .. import p2loop
+
+# WP p2b: P2/B are independent of threads / interleaving / time (PcProps/C03P2.lean; streams in pcv/p2loop.py)
+EXTRA_MODULES = ["C03P2"]
 
 RULE = ("same range handed out under team sizes 1..64 x seeded return orders x print on/off x duration alphabets; "
         "every complete history must sum to f[start,limit) (closed form), model must accept and agree on chunk count, "
@@ -54,7 +58,7 @@ def streams(ctx):
             for pr in (0, 1):
                 ac.append("lbac %d %d %d %d %d %d %d %d" % (sq, y, t, pr, rng.getrandbits(32), cap, rng.choice((0, 1, 2, 3)), 0))
     return [c09.make_stream("lbs2-teams", s2, ctx=ctx), c09.make_stream("lbp2-teams", p2, ctx=ctx),
-            c09.make_stream("lbac-teams", ac, ctx=ctx)] + granted_streams(ctx)
+            c09.make_stream("lbac-teams", ac, ctx=ctx)] + granted_streams(ctx) + p2loop.c03_streams(ctx)
 
 
 def granted_streams(ctx):
